@@ -512,7 +512,11 @@ def case_far(c):
     tolerance relative to the coordinates mistakes for equal grids) at
     UTM-like origins give the reference result."""
     from emg3d import maps
-    org = FAR_ORIGINS[c['origin']]
+    # the whole configuration (origin and widths) in other length units:
+    # averaging weights are ratios of lengths and do not change
+    scale = c.get('scale', 1.0)
+    org = tuple(o*scale for o in FAR_ORIGINS[c['origin']])
+    FAR_UNITS = tuple(u*scale for u in globals()['FAR_UNITS'])
     old = [org[d] + FAR_UNITS[d]*np.asarray(FAR_LATS[p][0], float)
            for d, p in enumerate(c['pairs'])]
     new = [org[d] + FAR_UNITS[d]*np.asarray(FAR_LATS[p][1], float)
@@ -540,8 +544,8 @@ def case_far(c):
         if got.shape != sn or not err <= tol*(10 if log else 1):
             viol.append({
                 'cls': 'volume-average-depends-on-absolute-position',
-                'what': f'origin {org}, lattice pairs {c["pairs"]}, log='
-                        f'{log}: differs from the reference by {err:.2e}',
+                'what': f'origin {org}, unit scale {scale}, lattice pairs '
+                        f'{c["pairs"]}, log={log}: differs from the reference by {err:.2e}',
                 'observed': got, 'expected': want})
     # the same through Model.interpolate_to_grid (which the solver uses to
     # bring the model to the computational grid)
@@ -558,17 +562,19 @@ def case_far(c):
             m2.property_x - want).max() <= 10*tol*np.abs(want).max():
         viol.append({
             'cls': 'model-interpolation-depends-on-absolute-position',
-            'what': f'origin {org}, lattice pairs {c["pairs"]}: '
-                    'Model.interpolate_to_grid does not return the volume '
+            'what': f'origin {org}, unit scale {scale}, lattice pairs '
+                    f'{c["pairs"]}: Model.interpolate_to_grid does not return the volume '
                     'average on the new grid (result lives on the new grid: '
                     f'{all(same_grid)})'})
     return {'viol': viol, 'compared': compared, 'transitions': 3,
-            'nontrivial': True, 'outcome': (c['origin'], bool(viol))}
+            'nontrivial': True, 'outcome': (c['origin'], scale, bool(viol))}
 
 
 def cases_far(tier):
     n = len(FAR_LATS)
-    return [{'origin': o, 'pairs': p} for o in range(len(FAR_ORIGINS))
+    return [{'origin': o, 'pairs': p, 'scale': s}
+            for o in range(len(FAR_ORIGINS))
+            for s in (1.0, 1.0471975512e-4, 1.0471975512e3)
             for p in itertools.product(range(n), repeat=3)]
 
 
@@ -773,7 +779,8 @@ def run(ctx):
                     rule='full product of 5 lattice pairs per direction '
                          '(equal, same widths shifted by one cell, '
                          'non-nested, overhang) at 3 origins (UTM-like, '
-                         'large negative, zero), metre-sized units; linear '
+                         'large negative, zero) x unit scale {1, pi/3e-4, pi/3e3} (the '
+                         'whole configuration in other length units); linear '
                          'and log mode vs the lattice reference',
                     time_cap=cap)
     if ctx.wants('adjoint-sequences'):
